@@ -14,15 +14,17 @@ Poly(ps, b) == [params |-> ps, body |-> b]
 PolyId  == Poly(<<ParamType("A")>>, FnT(<<Var(0, "A")>>, <<Var(0, "A")>>))
 PolyRow == Poly(<<ParamList(ParamType("A"))>>, FnT(<<RowVar(0, "A")>>, <<BoolT, RowVar(0, "A")>>))   \* row-polymorphic: arity changes under instantiation
 PolyNat == Poly(<<ParamNat(7), ParamType("C")>>, FnT(<<OpaqueT("arithmetic.int.types", "int", <<VarArg(0, ParamNat(7))>>, "C")>>, <<Var(1, "C")>>))
-Polys == {Poly(<<>>, s) : s \in SigsNR} \cup {PolyId, PolyRow, PolyNat}
+PolyNatU == Poly(<<ParamNat(-1), ParamList(ParamNat(-1))>>, FnT(<<OpaqueT("arithmetic.int.types", "int", <<VarArg(0, ParamNat(-1))>>, "C")>>, <<>>))  \* unbounded nat: "bound": null on the wire
+Polys == {Poly(<<>>, s) : s \in SigsNR} \cup {PolyId, PolyRow, PolyNat, PolyNatU}
 (* (func_sig, type_args, instantiation) triples *)
 Insts == {<<Poly(<<>>, s), <<>>, s>> : s \in SigsNR}
     \cup {<<PolyId, <<TyArg(t)>>, FnT(<<t>>, <<t>>)>> : t \in U}
     \cup {<<PolyRow, <<SeqArg([i \in 1..Len(r) |-> TyArg(r[i])])>>, FnT(r, <<BoolT>> \o r)>> : r \in RowsS}
+    \cup {<<PolyNatU, <<NatArg(9), SeqArg(<<NatArg(1)>>)>>, FnT(<<OpaqueT("arithmetic.int.types", "int", <<NatArg(9)>>, "C")>>, <<>>)>>}
     \cup {<<PolyNat, <<NatArg(3), TyArg(BoolT)>>, FnT(<<OpaqueT("arithmetic.int.types", "int", <<NatArg(3)>>, "C")>>, <<BoolT>>)>>}
 SmallVals == {EncValS(UnitSumV(1, 2)), EncValS(IntV(5, 7)), EncValS(TupleV(<<UnitSumV(0, 2), IntV(3, 1)>>)),
               EncValS(SomeV(<<UnitSumV(0, 1)>>)), EncValS(FuncV(<<BoolT>>))}
-Names == {"f", "fü"}
+Names == {"f", "fü", " pad ", "nl\n"}      \* names with surrounding whitespace must survive verbatim
 WireOps ==
        {[op |-> "Module"]}
   \cup {[op |-> "FuncDefn", name |-> n, signature |-> p] : n \in Names, p \in Polys}
@@ -44,14 +46,18 @@ WireOps ==
   \cup {[op |-> "TailLoop", just_inputs |-> ji, just_outputs |-> jo, rest |-> r, extension_delta |-> d] :
            ji \in Rows3, jo \in Rows3, r \in Rows3, d \in {<<>>, <<"e1">>}}
   \cup {[op |-> "Extension", extension |-> "e1", name |-> "opn", signature |-> s, description |-> d, args |-> a] :
-           s \in {FnT(<<QubitT>>, <<QubitT, BoolT>>), FnTR(<<>>, <<IntW>>, <<"e1">>)}, d \in {"", "dësc"},
-           a \in {<<>>, <<NatArg(5)>>, <<TyArg(QubitT), StrArg("s")>>}}
+           s \in {FnT(<<QubitT>>, <<QubitT, BoolT>>), FnTR(<<>>, <<IntW>>, <<"e1">>)}, d \in {"", "dësc", "doc \n   "},
+           a \in {<<>>, <<NatArg(5)>>, <<TyArg(QubitT), StrArg("s")>>, <<StrArg(" s\n")>>}}
   \cup {[op |-> "Tag", tag |-> t, variants |-> vs] : <<t, vs>> \in {<<tt, vv>> \in (0..2) \X SeqsUpTo(Rows3, 3) : tt < Len(vv)}}
   \cup {[op |-> "AliasDecl", name |-> "al", bound |-> b] : b \in {"C", "A"}}
   \cup {[op |-> "AliasDefn", name |-> "al", definition |-> t] : t \in U}
 SugarOps ==
        {MakeTupleOp(r) : r \in RowsS} \cup {UnpackTupleOp(r) : r \in RowsS} \cup {NoopOp(t) : t \in U \cup {TupleT(<<BoolT, QubitT>>)}}
   \cup {SomeOp(r) : r \in RowsS}
+  \cup {ExtOpOp("e1", "mono", Poly(<<>>, FnTR(<<QubitT>>, <<QubitT>>, <<"e1">>)), c, <<>>, dd) :
+           c \in {NoSig, FnTR(<<QubitT>>, <<QubitT>>, <<"e1">>), FnTR(<<QubitT>>, <<QubitT>>, <<"e1", "extra">>)}, dd \in {"", "dëf doc"}}
+  \cup {ExtOpOp("e1", "poly", Poly(<<ParamType("A")>>, FnTR(<<Var(0, "A")>>, <<Var(0, "A")>>, <<"e1">>)),
+                 FnTR(<<t>>, <<t>>, <<"e1">>), <<TyArg(t)>>, "p") : t \in {BoolT, QubitT, TupleT(<<BoolT>>)}}
   \cup UNION {{LeftOp(l, r), RightOp(l, r), ContinueOp(l, r), BreakOp(l, r)} : <<l, r>> \in Rows3 \X Rows3}
 Init == o \in WireOps \cup SugarOps
 Next == UNCHANGED o
